@@ -51,7 +51,7 @@ package http2
 // ---------------------------------------------------------------------------
 
 //@ func (*FrameHeader).parseValues
-//@ props C05 C16 C17
+//@ props C05 C16 C17 C01 C02 C08
 //@ requires recv: f != nil
 //@ requires hdr: len(header) >= 9
 //@ modifies f.length, f.kind, f.flags, f.stream
@@ -105,7 +105,7 @@ package http2
 //@ ensures es: r0 == nil ==> data.endStream == hasflag(fr.flags, 1)
 
 //@ func (*Data).Serialize
-//@ props C05 C01
+//@ props C05 C01 C02 C06
 //@ requires recv: data != nil && fr != nil
 //@ modifies fr.flags, fr.payload, capacity(fr.payload), data.b, capacity(data.b)
 //@ ensures es: data.endStream ==> hasflag(fr.flags, 1)
@@ -153,7 +153,7 @@ package http2
 //@ ensures fields: r0 == nil ==> rst.code == be32(fr.payload, 0)
 
 //@ func (*RstStream).Serialize
-//@ props C05
+//@ props C05 C08
 //@ requires recv: rst != nil && fr != nil
 //@ modifies fr.payload, capacity(fr.payload), fr.length
 //@ ensures layout: len(fr.payload) == 4 && be32(fr.payload, 0) == rst.code
@@ -167,7 +167,7 @@ package http2
 //@ ensures fields: r0 == nil ==> wu.increment == be31(fr.payload, 0)
 
 //@ func (*WindowUpdate).Serialize
-//@ props C05
+//@ props C05 C14 C02
 //@ requires recv: wu != nil && fr != nil
 //@ modifies fr.payload, capacity(fr.payload), fr.length
 //@ ensures layout: len(fr.payload) == 4 && fr.payload[0] < 128
@@ -190,7 +190,7 @@ package http2
 //@ ensures noack: !p.ack ==> fr.flags == old(fr.flags)
 
 //@ func (*GoAway).Deserialize
-//@ props C05 C16 C17 C02
+//@ props C05 C16 C17 C02 C11
 //@ requires recv: ga != nil && fr != nil
 //@ modifies ga.stream, ga.code, ga.data, capacity(ga.data)
 //@ ensures size: err == nil <==> len(fr.payload) >= 8
@@ -225,7 +225,7 @@ package http2
 //@ ensures flags: r0 == nil ==> h.endStream == hasflag(frh.flags, 1) && h.endHeaders == hasflag(frh.flags, 4)
 
 //@ func (*Headers).Serialize
-//@ props C05 C01
+//@ props C05 C01 C02
 //@ requires recv: h != nil && frh != nil
 //@ modifies frh.flags, frh.payload, capacity(frh.payload), h.rawHeaders, capacity(h.rawHeaders)
 //@ let frag = old(h.rawHeaders)
@@ -886,7 +886,7 @@ package http2
 //@ macro frameSep(x, p) = (typeis(x, *GoAway) ==> bufsep(p, as(x, *GoAway).data)) && (typeis(x, *PushPromise) ==> bufsep(p, as(x, *PushPromise).header))
 
 //@ func (*FrameHeader).WriteTo
-//@ props C05 C18
+//@ props C05 C18 C01 C02
 //@ requires recv: f != nil && w != nil && f.fr != nil
 //@ requires body: frameNonNil(f.fr) && frameSep(f.fr, f.payload)
 //@ modifies *f, capacity(f.payload), anybytes(), family(Data), family(Headers), family(Priority), family(RstStream), family(Settings), family(PushPromise), family(Ping), family(GoAway), family(WindowUpdate), family(Continuation)
